@@ -60,6 +60,7 @@ type Compiler struct {
 	scopeIndex      int
 	modules         ModuleGetter
 	compiledModules map[string]*CompiledFunction
+	builtinModules  map[string]int // builtin module name -> constant index
 	allowFileImport bool
 	loops           []*loop
 	loopIndex       int
@@ -561,7 +562,8 @@ func (c *Compiler) Compile(node parser.Node) error {
 				c.emit(node, parser.OpConstant, c.addConstant(compiled))
 				c.emit(node, parser.OpCall, 0, 0)
 			case Object: // builtin module
-				c.emit(node, parser.OpConstant, c.addConstant(v))
+				c.emit(node, parser.OpConstant,
+					c.builtinModuleConstant(node.ModuleName, v))
 			default:
 				panic(fmt.Errorf("invalid import value type: %T", v))
 			}
@@ -1209,6 +1211,25 @@ func (c *Compiler) addConstant(o Object) int {
 		c.printTrace(fmt.Sprintf("CONST %04d %s", len(c.constants)-1, o))
 	}
 	return len(c.constants) - 1
+}
+
+// builtinModuleConstant returns the constant index of a builtin module's
+// table: every import expression of the same module refers to one constant
+// (with or without the later de-duplication of constants), so all of them
+// yield the same table.
+func (c *Compiler) builtinModuleConstant(name string, v Object) int {
+	if c.parent != nil {
+		return c.parent.builtinModuleConstant(name, v)
+	}
+	if idx, ok := c.builtinModules[name]; ok {
+		return idx
+	}
+	idx := c.addConstant(v)
+	if c.builtinModules == nil {
+		c.builtinModules = make(map[string]int)
+	}
+	c.builtinModules[name] = idx
+	return idx
 }
 
 func (c *Compiler) addInstruction(b []byte) int {
